@@ -45,7 +45,15 @@ def fs_case(draw, nmax=64):
     un = draw(st.sampled_from(["Hz", "kHz", "1/s", "MHz"]))
     rate = O.fq(spec["sr"])
     vals = [float(a * rate / N / O.FREQ_UNITS[un]) for a in bins]
-    return {"sig": spec, "shape": shp, "vals": vals, "unit": un}
+    # dtype of the shift Quantity: double (usual), single (values rounded to single first, the oracle uses what is passed), int64 when whole
+    vk = draw(st.sampled_from(["f8", "f8", "f8", "f4", "i8"]))
+    if vk == "f4":
+        vals = [float(np.float32(v)) for v in vals]
+        if not all(np.isfinite(vals)):
+            vk = "f8"
+    elif vk == "i8" and not all(float(v).is_integer() and abs(v) < 2**53 for v in vals):
+        vk = "f8"
+    return {"sig": spec, "shape": shp, "vals": vals, "unit": un, "vk": vk}
 
 
 def run_fs(case, stt):
@@ -58,6 +66,12 @@ def run_fs(case, stt):
     rate = O.fq(spec["sr"])
     vals = np.array(case["vals"], dtype=np.float64).reshape(case["shape"])
     arg = vals * O.unit(case["unit"]) if case["shape"] else float(vals) * O.unit(case["unit"])
+    vk = case.get("vk", "f8")
+    if vk == "f4" and case["unit"] not in ("Hz", "1/s"):
+        vk = "f8"  # a single-precision value in a scaled unit is converted to Hz in single precision: input precision, not exercised
+    if vk != "f8" and all(float({"f4": np.float32, "i8": np.int64}[vk](v)) == v for v in np.ravel(vals)):
+        arg = u.Quantity(arg.value.astype({"f4": np.float32, "i8": np.int64}[vk]), arg.unit, dtype={"f4": np.float32, "i8": np.int64}[vk])
+        stt.label("shift_dtype_" + vk)
     with lib("freq_shift"):
         y = pb.freq_shift(z, arg)
     contract(y, "freq_shift")
@@ -165,14 +179,15 @@ def hist_case(draw):
     for _ in range(draw(st.integers(1, 4))):
         kind = draw(st.sampled_from(["rate", "rate", "data", "shift", "unit", "cf", "same"]))
         steps.append([kind, draw(st.sampled_from([2.0, 0.5, 4.0, 3.0, 0.25])), draw(st.integers(0, 2**31 - 1))])
-    return {"base": base, "steps": steps}
+    return {"base": base, "steps": steps, "one_object": draw(st.booleans())}
 
 
 def run_hist(case, stt):
     import copy
 
     cur = copy.deepcopy(case["base"])
-    run_fs(cur, stt)
+    one = G.OneObject(case.get("one_object", False), cur["sig"])
+    one.run(run_fs, cur, stt)
     for kind, fac, seed in case["steps"]:
         cur = copy.deepcopy(cur)
         if kind == "rate":
@@ -187,8 +202,9 @@ def run_hist(case, stt):
             cur["unit"] = new
         elif kind == "cf":
             cur["sig"]["cf"]["v"] *= fac
-        run_fs(cur, stt)
+        one.run(run_fs, cur, stt)
         stt.label("hist_" + kind)
+    stt.label("one_object_reassigned" if one.reused > 1 else "fresh_objects")
     stt.nt(any(k == "rate" for k, _, _ in case["steps"]))
 
 
